@@ -4,11 +4,13 @@ from vlib import bytes_coq
 
 PROPS = ["C01/Props.v"]
 META = dict(
-    text="Rocq theorems over an executable transcription of ReadSeqFileChunk, the three record splitters, the FASTA/FASTQ byte state machines and the GenBank/EMBL line parsers: for EVERY splitter answering inside its buffer, buffer size and file the chunks are numbered 0..n-1, are the CR/LF-stripped consecutive segments of the file, only CR/LF bytes fall outside and cuts happen only where the splitter answered (C01_chunker_partition); the splitters only answer at record starts (FASTA: '>' after CR/LF; FASTQ: an '@' line followed by a sequence-alphabet line, proved to be rejected by the parser anywhere but at a record boundary, so quality lines starting with '@'/'+' are never cut; flat: after LF // CR? LF); composition theorems C01_read_fasta / _fastq / _genbank / _embl (+ _any_order): for every text the chunk parser accepts as a whole, every buffer size and every arrival order of the parsed batches (Common/Reseq) the records delivered are the records of the file in order -- flat files may end with ANY CR/LF bytes after the last '//' (LF, CR LF, stray CR: flat_inv3). All four formats have an independent printer specification closed by a round-trip theorem and a whole-reader theorem (C01_{fasta,fastq,genbank,embl}_print_parse, C01_read_*_printed): FASTA/FASTQ with any folding, LF/CRLF, blank lines, definitions, any quality bytes incl. leading '@'/'+', nucleotides in upper/lower/mixed case delivered lower-cased; GenBank/EMBL with multi-line DEFINITION / DE (padded, joined by one blank), arbitrary non-keyword header and feature lines, SOURCE / OS present or absent, /db_xref=\"taxon:N\" present or absent (taxid 1), numbered ORIGIN blocks / EMBL sequence lines with padding and position, any case, LF or CR LF per record, empty lines after any '//'. io.ReadFull over any schedule of short reads equals one read of the whole data (C01_readfull_any_transport); record independence of the flat parsers at '//' (refuted for the unrepaired parsers). On every run the real ReadSeqFileChunk is driven with every buffer size 1..|file|+1 over generated well-formed files through several reader kinds, every chunk is parsed by the real chunk parser and compared with the generator's records (direct oracle); chunks, splitter answers and parsed records are compared with the model by vm_compute; flat files written by the Python twin of the printers are DECIDED inside Coq to be print_gb / print_embl of valid layouts (pcase_ok), so C01_printed_case_genbank / _embl apply to the very bytes the real parsers read; the public readers (1..8 workers; files larger than the 1 MiB buffer, a record ending exactly at / next to the buffer end, a one-line record longer than the buffer, blank-only files, flat files cut into many chunks through the hook VerifFlatFileChunkSize, full-file batch mode) and the obiconvert binary (file, stdin, gzip) are compared with the expected records.",
-    note="Trusted: Coq kernel + vm_compute; io.ReadFull modelled by its documentation (this is what makes transports equal: short reads are hidden), bufio byte/line reading (bufio.Scanner's 64 KiB token limit is NOT modelled: EMBL lines are assumed shorter; valid_embl bounds them by 1000), strings/strconv helpers on ASCII (Atoi overflow not modelled: valid layouts have at most 18 digits); harness and generators. 'Well-formed' in the composition theorems means: accepted by the chunk parser as one chunk and ending inside/after the last record (flat files: after the last '//' line followed by any CR/LF bytes; a last '//' without line end is covered dynamically only); in the printer theorems: the image of the printers on valid layouts (GenBank lines <= 100 bytes as the parser demands, one taxon cross-reference per record, CONTIG records not printed). The public readers deliver NUMBERED batches: their arrival order is not the file order for any format (header-parsing worker pool after SortBatches); the check requires numbers 0..n-1 whose concatenation in number order is the file, and ONE ordered batch in full-file batch mode. The kseq C reader (stdin before the C17 repair), channels/goroutines and IParseFastSeqHeaderBatch are exercised, not modelled (Common/Reseq.v is the model of SortBatches). Feature tables (withFeatureTable) are not observed. Fixed in round 2: ReadGenbank/ReadEMBL never terminated in full-file batch mode and did not sort their batches.")
+    text="Rocq theorems over an executable transcription of ReadSeqFileChunk, the three record splitters, the FASTA/FASTQ byte state machines and the GenBank/EMBL line parsers: for EVERY splitter answering inside its buffer, buffer size and file the chunks are numbered 0..n-1, are the CR/LF-stripped consecutive segments of the file, only CR/LF bytes fall outside and cuts happen only where the splitter answered (C01_chunker_partition); the splitters only answer at record starts (FASTA: '>' after CR/LF; FASTQ: an '@' line followed by a sequence-alphabet line, proved to be rejected by the parser anywhere but at a record boundary, so quality lines starting with '@'/'+' are never cut; flat: after LF // CR? LF); composition theorems C01_read_fasta / _fastq / _genbank / _embl (+ _any_order): for every text the chunk parser accepts as a whole, every buffer size and every arrival order of the parsed batches (Common/Reseq) the records delivered are the records of the file in order -- flat files may end with ANY CR/LF bytes after the last '//' (LF, CR LF, stray CR: flat_inv3). All four formats have an independent printer specification closed by a round-trip theorem and a whole-reader theorem (C01_{fasta,fastq,genbank,embl}_print_parse, C01_read_*_printed): FASTA/FASTQ with any folding, LF/CRLF, blank lines, definitions, any quality bytes incl. leading '@'/'+', nucleotides in upper/lower/mixed case delivered lower-cased; GenBank/EMBL with multi-line DEFINITION / DE (padded, joined by one blank), arbitrary non-keyword header and feature lines, SOURCE / OS present or absent, /db_xref=\"taxon:N\" present or absent (taxid 1), numbered ORIGIN blocks / EMBL sequence lines with padding and position, any case, LF or CR LF per record, empty lines after any '//'. io.ReadFull over any schedule of short reads equals one read of the whole data (C01_readfull_any_transport); record independence of the flat parsers at '//' (refuted for the unrepaired parsers). On every run the real ReadSeqFileChunk is driven with every buffer size 1..|file|+1 over generated well-formed files through several reader kinds, every chunk is parsed by the real chunk parser and compared with the generator's records (direct oracle); chunks, splitter answers and parsed records are compared with the model by vm_compute; flat files written by the Python twin of the printers are DECIDED inside Coq to be print_gb / print_embl of valid layouts (pcase_ok), so C01_printed_case_genbank / _embl apply to the very bytes the real parsers read; the public readers (1..8 workers; files larger than the 1 MiB buffer, a record ending exactly at / next to the buffer end, a one-line record longer than the buffer, blank-only files, flat files cut into many chunks through the hook VerifFlatFileChunkSize, full-file batch mode) and the obiconvert binary (file, stdin, gzip) are compared with the expected records. Round 3 (glue the commands go through): a transport that ends with a genuine I/O error instead of EOF is modelled (GlueModel.v: chunker_e) -- for every splitter, buffer size and data the reader then DIES (log.Fatal), never ends cleanly, and what it sent before is an initial part of a partition of the bytes received (C01_chunker_io_error_fatal, C01_chunker_dies_iff_transport_fails; C01_chunker_clean_transport ties the extended reader to the one of the other theorems); the peek-and-rebuild reader of OBIMimeTypeGuesser delivers exactly the data for every size of its buffer and keeps a transport error (C01_guess_reader_identity, C01_guess_io_error_kept). On every run: failing transports under ReadSeqFileChunk at every buffer size (chunks before death compared with chunker_e by vm_compute) and under the four public readers; OBIMimeTypeGuesser at every buffer size (hook VerifMimeGuessBufferSize) over the reader kinds; the entry points Read{Sequences,Fasta,Fastq,Genbank,EMBL}FromFile / FromStdin and the kseq reader on files written plain / gzip / bzip2 / xz / zstd, with a byte-order mark, empty, missing, larger than every buffer; obiconvert with --fasta/--fastq/--genbank/--embl, --max-cpu, --force-one-cpu, compressed files and compressed standard input, empty input, > 2 MiB input; flat-file parsers with their feature table (same records, the feature lines of each record, at every buffer size); quality offset 64; records of identical size (every read ends at a record end), blanks inside FASTA sequence lines, lone-CR line ends, CONTIG records, each error branch of the four chunk parsers.",
+    note="Trusted: Coq kernel + vm_compute; io.ReadFull modelled by its documentation (this is what makes transports equal: short reads are hidden), bufio byte/line reading (bufio.Scanner's 64 KiB token limit is NOT modelled: EMBL lines are assumed shorter; valid_embl bounds them by 1000), strings/strconv helpers on ASCII (Atoi overflow not modelled: valid layouts have at most 18 digits); harness and generators. 'Well-formed' in the composition theorems means: accepted by the chunk parser as one chunk and ending inside/after the last record (flat files: after the last '//' line followed by any CR/LF bytes; a last '//' without line end is covered dynamically only); in the printer theorems: the image of the printers on valid layouts (GenBank lines <= 100 bytes as the parser demands, one taxon cross-reference per record, CONTIG records not printed). The public readers deliver NUMBERED batches: their arrival order is not the file order for any format (header-parsing worker pool after SortBatches); the check requires numbers 0..n-1 whose concatenation in number order is the file, and ONE ordered batch in full-file batch mode. The kseq C reader (stdin before the C17 repair), channels/goroutines and IParseFastSeqHeaderBatch are exercised, not modelled (Common/Reseq.v is the model of SortBatches). Feature tables (withFeatureTable) are not observed. Fixed in round 2: ReadGenbank/ReadEMBL never terminated in full-file batch mode and did not sort their batches. Round 3, not exercised because outside the property: pkg/obiiter/batchiterator.go beyond MakeIBioSequence/Add/Done/Push/Next/Get/WaitAndClose/SortBatches/CompleteFileIterator (Concat, Pool, Rebatch, FilterEmpty, FilterOn/And, DivideOn, Count, Consume, IBatchOver, the lock helpers: transformations and multi-file reading, properties C03/C05/C16; the nil-iterator panics); xopen.go Wopen/WopenFile/Close/Flush (writers: C04/C18), XReader over http(s) (offline), Ropen of '-' and '|command' (ExpandListOfFiles only hands real paths to the readers), ExpandUser, IsStdin, Exists (no caller), the truncated-stream guards (C17); ReadFastSeqFromStdin (kseq on the C-level stdin, no caller); ReadEcoPCR / ReadCSV branches of the type guesser (other formats). The kseq reader ReadFastSeqFromFile has no caller in any command: it is compared with the expected records modulo the blanks it keeps around the definition, on files without lone-CR line ends (it dies with SIGSEGV on those). On standard input --fasta/--fastq are ignored (the type is guessed) and the guesser recognises FASTQ through LF-ended lines: a FASTQ file whose lines end with a lone CR is read only from a file with --fastq (exercised that way). The writer refuses the empty sequence of a CONTIG record: such records are judged in process only. The harness needs the hook VerifMimeGuessBufferSize (verif3_c01.go).")
 TRUSTED = ["io.ReadFull modelled by its documented meaning (n bytes or EOF / ErrUnexpectedEOF), bufio.Reader.ReadByte/ReadLine and bufio.Scanner as plain byte / line iteration (Scanner's 64 KiB token limit not modelled)",
            "strings.TrimSpace / SplitN / HasPrefix / strconv.Atoi of the flat-file parsers modelled on ASCII input (Atoi overflow not modelled)",
            "Go channels / goroutines between ReadSeqFileChunk, the parser workers and SortBatches: modelled as an arbitrary permutation of the numbered batches fed to Common/Reseq.v",
+           "a failing transport is modelled as: the bytes delivered, then an error that io.ReadFull passes on unchanged (short read + the error) -- exercised with readers failing after k bytes, alone and behind short reads",
+           "decompressors (klauspost gzip/zstd, dsnet bzip2, ulikunitz xz) and the UTF-8 byte-order-mark skipping of xopen.Buf are exercised against reference compressors (Python gzip/bz2/lzma, zstd CLI), not modelled",
            "the Python twin of print_gb / print_embl is NOT trusted: its output is compared byte for byte with the Coq printers on every run (print_mismatches)"]
 
 FMT = dict(fasta=0, fastq=1, genbank=2, embl=3)
@@ -34,14 +36,18 @@ def rand_text(rng, alphabet, n):
     return "".join(rng.choice(alphabet) for _ in range(n))
 
 
-def gen_layout(rng):
-    return dict(eol=rng.choice(["\n", "\n", "\r\n", "mixed"]), blank=rng.random() < 0.3, trail=rng.choice([0, 1, 1, 2]))
+def gen_layout(rng, cr=False):
+    # "\r": lines ended by a lone CR (FASTA / FASTQ only; the flat-file parsers split lines at LF)
+    return dict(eol=rng.choice(["\n", "\n", "\r\n", "mixed"] + (["\r", "mixed3"] if cr else [])), blank=rng.random() < 0.3, trail=rng.choice([0, 1, 1, 2]),
+                inblank=rng.random() < 0.25)
 
 
 def eol_of(rng, lay):
     e = lay["eol"]
     if e == "mixed":
         e = rng.choice(["\n", "\r\n"])
+    if e == "mixed3":
+        e = rng.choice(["\n", "\r\n", "\r"])
     if lay["blank"] and rng.random() < 0.25:
         e = e + rng.choice(["\n", "\r\n", "\n\n"])
     return e
@@ -82,6 +88,9 @@ def gen_fasta(rng, nrec, lay):
         txt = ">" + rid + sep + d + eol_of(rng, lay)
         lines = [s[i:i + w] for i in range(0, n, w)]
         for li, l in enumerate(lines):
+            if lay.get("inblank") and rng.random() < 0.5:       # blanks / tabs inside and at the end of a sequence line: dropped by the parser
+                k = rng.randrange(1, len(l) + 1)
+                l = l[:k] + rng.choice([" ", "\t", "  ", " \t"]) + l[k:]
             txt += l
             if li < len(lines) - 1:
                 txt += eol_of(rng, lay)
@@ -440,7 +449,7 @@ def layout_term(fmt, lay, r):
 
 
 def gen_file(rng, fmt, nrec=None):
-    lay = gen_layout(rng)
+    lay = gen_layout(rng, cr=fmt in ("fasta", "fastq"))
     nrec = nrec or rng.choice([1, 2, 3, 4, 6])
     if fmt == "fasta":
         return gen_fasta(rng, nrec, lay)
@@ -498,6 +507,53 @@ CORPUS = [
 ]
 
 
+# round 3: input classes the random generators did not produce
+GBEQ = "".join("LOCUS       AB%d 4 bp\nFEATURES    \nORIGIN\n        1 acgt\n//\n" % i for i in range(5))
+EMEQ = "".join("ID   X%d;\nSQ   Sequence 4 BP;\n     acgt 4\n//\n" % i for i in range(5))
+GBCONTIG = ("LOCUS       AB1 12 bp\nDEFINITION  x\nFEATURES             Loc\n     source  1..2\nCONTIG      join(A:1..2)\nCONTIG      more\n//\n"
+            "LOCUS       AB2 2 bp\nFEATURES    \nORIGIN\n        1 ac\n//\n")
+CORPUS += [
+    # records of identical size: with B = that size (or a multiple) EVERY read ends exactly at a record end (flat files: the
+    # tail carried over is empty, the buffer is reused from its start)
+    ("fasta", b"".join(b">r%d\nacgtac\n" % i for i in range(6)), [rec("r%d" % i, "", "acgtac") for i in range(6)], "equal-size"),
+    ("fastq", b"".join(b"@r%d\nacgt\n+\nI@+I\n" % i for i in range(6)), [rec("r%d" % i, "", "acgt", q33("I@+I")) for i in range(6)], "equal-size"),
+    ("genbank", GBEQ.encode(), [rec("AB%d" % i, "", "acgt", None, 1, "") for i in range(5)], "equal-size"),
+    ("embl", EMEQ.encode(), [rec("X%d" % i, "", "acgt", None, 1, "") for i in range(5)], "equal-size"),
+    ("genbank", GBEQ.replace("\n", "\r\n").encode(), [rec("AB%d" % i, "", "acgt", None, 1, "") for i in range(5)], "equal-size-crlf"),
+    # blanks and tabs inside / at the end of FASTA sequence lines
+    ("fasta", b">a\nac gt\tac \n \tg\n>b x\na c\n", [rec("a", "", "acgtacg"), rec("b", "x", "ac")], "blank-in-sequence"),
+    # lines ended by a lone CR
+    ("fasta", b">a d\rAC\rgt\r>b\rac\r", [rec("a", "d", "acgt"), rec("b", "", "ac")], "lone-cr"),
+    ("fastq", b"@a d\rACGT\r+\r@III\r@b\rac\r+\r+I\r", [rec("a", "d", "acgt", q33("@III")), rec("b", "", "ac", q33("+I"))], "lone-cr"),
+    # GenBank: a CONTIG record (no ORIGIN block: empty sequence), a LOCUS line without identifier
+    ("genbank", GBCONTIG.encode(), [rec("AB1", "x", "", None, 1, ""), rec("AB2", "", "ac", None, 1, "")], "contig"),
+    ("genbank", b"LOCUS       \nFEATURES    \nORIGIN\n        1 acgt\n//\n", [rec("", "", "acgt", None, 1, "")], "empty-locus-id"),
+    # bytes >= 128 in the title line (UTF-8 text)
+    ("fasta", ">s\xc3\xa9q1 d\xc3\xa9finition \xe2\x82\xac\nacgt\n>b\nac\n".encode("latin1"), [rec("s\xc3\xa9q1", "d\xc3\xa9finition \xe2\x82\xac", "acgt"), rec("b", "", "ac")], "utf8-title"),
+    ("fastq", "@s\xc3\xa9q1 d\xc3\xa9f\nacgt\n+\nIIII\n@b\nac\n+\nII\n".encode("latin1"), [rec("s\xc3\xa9q1", "d\xc3\xa9f", "acgt", q33("IIII")), rec("b", "", "ac", q33("II"))], "utf8-title"),
+    # the smallest files (xopen peeks 2 / 4 / 6 bytes for the compression magic numbers)
+    ("fasta", b">a\nc", [rec("a", "", "c")], "tiny"), ("fasta", b">a\nc\n", [rec("a", "", "c")], "tiny"),
+]
+# texts aimed at each error branch of the chunk parsers / each state of the flat-file splitter (model and code must agree:
+# fatal or the same records)
+MALFORMED = [
+    ("fasta", b"> a\nac\n"), ("fasta", b">\tb\nac\n"), ("fasta", b">a\n1cgt\n"), ("fasta", b">a\nac>b\nac\n"), ("fasta", b">a\nac1t\n"),
+    ("fasta", b">a\n>b\nac\n"), ("fasta", b">a\n\n"), ("fasta", b">a x\n ac\n"), ("fasta", b">a\nac\n>\nac\n"),
+    ("fastq", b"@a\nac1t\n+\nIIII\n"), ("fastq", b"@a\nacgt\nIIII\n"), ("fastq", b"@a\nacgt\n+\nIIII\nx"), ("fastq", b"@a\nacgt\n+\nIII\n"),
+    ("fastq", b"@a\nacgt\n+\n\n"), ("fastq", b"@a\nacgt\n+\nIIIII"), ("fastq", b"@\nacgt\n+\nIIII\n"), ("fastq", b"@a\n\n+\nI\n"), ("fastq", b"a\nacgt\n+\nIIII\n"),
+    ("fastq", b"@a\nac gt\n+\nIIIII\n"),
+    ("genbank", b"LOCUS       A1\n" + b"x" * 101 + b"\n//\n"), ("genbank", b"LOCUS       A1\nLOCUS       A2\n"), ("genbank", b"DEFINITION  d\n"),
+    ("genbank", b"SOURCE      s\n"), ("genbank", b"FEATURES    f\n"), ("genbank", b"LOCUS       A1\nORIGIN\n"), ("genbank", b"LOCUS       A1\nCONTIG\n"),
+    ("genbank", b"LOCUS       A1\n//\n"), ("genbank", b"LOCUS       A1\nFEATURES    \nSOURCE      s\n"), ("genbank", b"LOCUS       A1\nFEATURES    \nDEFINITION  s\n"),
+    ("genbank", b"LOCUS       A1\nFEATURES    \nORIGIN\n        1 ac\nLOCUS       A2\n"), ("genbank", b"LOCUS       A1\nFEATURES    \nCONTIG\nORIGIN\n//\n"),
+    ("genbank", b"LOCUS       A1\nDEFINITION  a\n            b\nc\nFEATURES    \nORIGIN\n        1 ac\n//"),
+    ("genbank", b"LOCUS       A1 99999999999999999999999 bp\nFEATURES    \nORIGIN\n        1 ac\n//\n"),
+    ("embl", b"ID   A;\n     ac 2\n"), ("embl", b"//\n//\n"), ("embl", b"ID   A;\nFH   K\nFH\nFT   x\n     acgt\n//\n"),
+]
+SPLITBUFS = [("flat", b"ID\n/\nxx\n//\n"), ("flat", b"a\n/x\n//\nb"), ("flat", b"a\n\r/\n//\r\nb"), ("flat", b"a\n//x\n//\n"), ("flat", b"\n/\n/\n//\n\n"),
+             ("flat", b"a\n\r\n//\n"), ("flat", b"//\n"), ("flat", b"a\n//\r\r\nb")]
+
+
 # ------------------------------------------------------------------ oracle helpers
 def obs_rec(r):
     return dict(id=unb64(r["id"]).decode("latin1"), d=unb64(r["def"]).decode("latin1"), seq=unb64(r["seq"]).decode("latin1"),
@@ -523,6 +579,64 @@ def partition_ok(file, chunks):
 
 def recs_equal(a, b):
     return a == b
+
+
+def prefix_partition(file, limit, chunks):
+    """Chunks delivered before a transport failure at offset `limit`: numbers 0..n-1, consecutive non-empty segments of
+    file[:limit], only CR/LF between them."""
+    pos = 0
+    for k, (o, st, ln) in enumerate(chunks):
+        if o != k or ln <= 0 or st < pos or st + ln > limit:
+            return "numbering/order/range: chunk %d = %r (transport failed at %d)" % (k, (o, st, ln), limit)
+        if any(c not in EOLS for c in file[pos:st]):
+            return "bytes other than CR/LF dropped before chunk %d" % k
+        pos = st + ln
+    return None
+
+
+def expected_features(fmt, data):
+    """Feature table of every record as the flat-file parsers accumulate it (withFeatureTable): GenBank: the FEATURES line
+    and every following line up to ORIGIN / CONTIG; EMBL: the FH / FT lines.  Lines joined by LF."""
+    out, cur, infeat = [], "", False
+    for raw in data.decode("latin1").split("\n"):
+        line = raw[:-1] if raw.endswith("\r") else raw
+        if line == "//":
+            out.append(cur); cur = ""; infeat = False
+        elif fmt == "genbank":
+            if line.startswith("FEATURES    "):
+                cur += line; infeat = True
+            elif line.startswith("ORIGIN") or line.startswith("CONTIG"):
+                infeat = False
+            elif infeat:
+                cur += "\n" + line
+        else:
+            if line.startswith("ID   ") or line.startswith("OS   ") or line.startswith("DE   "):
+                pass
+            elif line.startswith("FH   "):
+                cur += line
+            elif line == "FH" or line.startswith("FT   "):
+                cur += "\n" + line
+    return out
+
+
+def compress(codec, data):
+    import gzip, bz2, lzma, subprocess
+    if codec == "gz":
+        return gzip.compress(data)
+    if codec == "bz2":
+        return bz2.compress(data)
+    if codec == "xz":
+        return lzma.compress(data)
+    if codec == "zst":
+        return subprocess.run([ZSTD, "-q", "-c"], input=data, capture_output=True, timeout=60, check=True).stdout
+    return data
+
+
+ZSTD = "/root/miniconda/bin/zstd"
+CODECS = ["raw", "gz", "bz2", "xz"] + (["zst"] if os.path.exists(ZSTD) else [])
+BOM = b"\xef\xbb\xbf"
+EXT = dict(fasta=".fasta", fastq=".fastq", genbank=".gb", embl=".embl")
+MIME = dict(fasta="text/fasta", fastq="text/fastq", genbank="text/genbank", embl="text/embl")
 
 
 # ------------------------------------------------------------------ Coq rendering
@@ -575,8 +689,36 @@ def parse_obi_output(text):
     return out
 
 
-def run_transports(ctx, files, broken):
-    import subprocess, gzip, tempfile, shutil
+def transport_plan(rng, fmt, data):
+    """The command lines of one file: (name, arguments after the binary, what is fed to stdin).  `F` stands for the path of the
+    plain file, `F.<codec>` for the compressed ones.  Always: the file, the standard input; then two drawn among the compressed
+    files / compressed standard input / the format flag (--fasta ...: ReadFastaFromFile ...) / --max-cpu / --force-one-cpu."""
+    import re
+    flagname = dict(fasta="--fasta", fastq="--fastq", genbank="--genbank", embl="--embl")[fmt]
+    # on stdin the flat formats are announced with the documented flag (files are sniffed); the type guesser recognises FASTQ by
+    # LF-ended lines: files whose lines end with a lone CR are read with --fastq
+    lonecr = fmt == "fastq" and re.search(rb"\r(?!\n)", data) is not None
+    need = [flagname] if lonecr else []
+    sflag = need or ([flagname] if fmt in ("genbank", "embl") else [])
+    plan = [("file", need + ["F"], None)] + ([] if lonecr else [("stdin", sflag, "raw")])     # (on stdin --fasta / --fastq are ignored: the type is guessed)
+    extra = []
+    for codec in CODECS[1:]:
+        extra.append((codec + "-file", need + ["F." + codec], None))
+        if not lonecr:
+            extra.append((codec + "-stdin", sflag, codec))
+    cpu = rng.choice([["--max-cpu", "1"], ["--max-cpu", "2"], ["--max-cpu", "8"], ["--force-one-cpu"]])
+    extra.append(("flag-file", [flagname, "F" + rng.choice([""] + ["." + c for c in CODECS[1:]])], None))
+    extra.append(("flag-cpu-file", [flagname] + cpu + ["F"], None))
+    extra.append(("cpu-file", need + cpu + ["F" + rng.choice(["", ".gz"])], None))
+    if not lonecr:
+        extra.append(("cpu-stdin", sflag + cpu, rng.choice(["raw", "gz"])))
+    rng.shuffle(extra)
+    return plan + extra[:2]
+
+
+def run_transports(ctx, files, broken, rng=None):
+    import subprocess, tempfile, shutil, random
+    rng = rng or random.Random(0)
     bind, err = ctx.build_cmds(["obiconvert"])
     if bind is None:
         broken.append(dict(kind="command-build", detail=err))
@@ -585,39 +727,53 @@ def run_transports(ctx, files, broken):
     d = tempfile.mkdtemp(prefix="c01_", dir=os.path.join(os.path.dirname(bind)))
     n = 0
     try:
-        for k, (fmt, data, recs, tag) in enumerate(files):
-            ext = dict(fasta=".fasta", fastq=".fastq", genbank=".gb", embl=".embl")[fmt]
-            path = os.path.join(d, "f%d%s" % (k, ext))
+        for k, f in enumerate(files):
+            fmt, data, recs, tag = f[:4]
+            plan = f[4] if len(f) > 4 else transport_plan(rng, fmt, data)
+            path = os.path.join(d, "f%d%s" % (k, EXT[fmt]))
+            blobs = {"raw": data}
             open(path, "wb").write(data)
-            with gzip.open(path + ".gz", "wb") as g:
-                g.write(data)
             outs = {}
-            # on stdin the flat formats are announced with the documented flag (files are sniffed)
-            flag = dict(genbank=["--genbank"], embl=["--embl"]).get(fmt, [])
-            transports = [("file", [exe, path], None), ("stdin", [exe] + flag, data), ("gzip-file", [exe, path + ".gz"], None)]
-            if not flag:
-                transports.append(("gzip-stdin", [exe], open(path + ".gz", "rb").read()))
-            for name, argv, stdin in transports:
+            for name, args, stdin in plan:
+                argv = [exe]
+                for a in args:
+                    if a == "F" or a.startswith("F."):
+                        codec = a[2:] or "raw"
+                        if codec not in blobs:
+                            blobs[codec] = compress(codec, data)
+                        if codec != "raw" and not os.path.exists(path + "." + codec):
+                            with open(path + "." + codec, "wb") as fh:
+                                fh.write(blobs[codec])
+                        a = path + a[1:]
+                    argv.append(a)
+                if stdin is not None and stdin not in blobs:
+                    blobs[stdin] = compress(stdin, data)
                 try:
-                    pr = subprocess.run(argv, input=stdin, capture_output=True, timeout=45)
-                    outs[name] = (pr.returncode, pr.stdout.decode("latin1"))
+                    pr = subprocess.run(argv, input=b"" if stdin is None else blobs[stdin], capture_output=True, timeout=60)
+                    outs[name] = (pr.returncode, pr.stdout.decode("latin1"), [a if not a.startswith(d) else "F" + a[len(path):] for a in argv[1:]])
                 except subprocess.TimeoutExpired:
-                    outs[name] = (124, "")
+                    outs[name] = (124, "", argv[1:])
                 n += 1
             exp = [(r["id"], r["d"].strip(), r["seq"], None if r["qual"] is None else "".join(chr(min(q, 93) + 33) for q in r["qual"]),
                     r["taxid"], r["sci"]) for r in recs]
-            for name, (rc, txt) in outs.items():
+            for name, (rc, txt, shown) in outs.items():
                 got = parse_obi_output(txt) if rc == 0 else None
                 if got is not None:
                     got = [(a, b.strip(), c, dd, e, f) for (a, b, c, dd, e, f) in got]
                 if got != exp:
-                    ctx.violation("c01_transport_%d_%s" % (k, name), dict(property="C01", kind="direct-oracle", what="obiconvert over transport " + name,
-                                                                          case=dict(kind="transport", fmt=fmt, file=b64(data), transport=name), file_text=data.decode("latin1"),
-                                                                          exit_status=rc, implementation=got, expected_records=exp))
+                    big = len(data) > 100000
+                    ctx.violation("c01_transport_%d_%s" % (k, name), dict(property="C01", kind="direct-oracle", what="obiconvert %s%s" % (" ".join(shown), " < the %s data" % dict(plan_stdin(plan))[name] if dict(plan_stdin(plan))[name] else ""),
+                                                                          case=dict(kind="transport", fmt=fmt, file=b64(data), transport=name, plan=[[a, b, c] for a, b, c in plan if a == name]), file_text=data.decode("latin1")[:600 if big else 100000],
+                                                                          exit_status=rc, implementation=[g[0] for g in got[:12]] if big and got else got, n_implementation=None if got is None else len(got),
+                                                                          expected_records=exp if not big else None, n_expected=len(exp)))
                     break
     finally:
         shutil.rmtree(d, ignore_errors=True)
     return n
+
+
+def plan_stdin(plan):
+    return [(name, stdin) for name, args, stdin in plan]
 
 
 # ------------------------------------------------------------------ main
@@ -661,16 +817,28 @@ def run(ctx, broken):
     for fi, (fmt, data, recs, tag) in enumerate(files):
         if fmt == "fastq" and recs is not None and (fi % 2 == 0 or tag != "gen"):
             cases.append(dict(kind="sweep", fmt=fmt, file=b64(data), bmin=bmin, bmax=len(data) + 1, rd="bytes", withq=False, shift=33, _f=fi))
+        # ... and with the other quality offset (--solexa: 64)
+        if fmt == "fastq" and recs is not None and (fi % 3 == 0 or tag != "gen"):
+            cases.append(dict(kind="sweep", fmt=fmt, file=b64(data), bmin=bmin, bmax=len(data) + 1, rd="bytes", withq=True, shift=64, _f=fi))
+        # flat files parsed WITH their feature table: same records, and the feature lines of each record, wherever the chunks end
+        if fmt in ("genbank", "embl") and recs is not None and (fi % 2 == 0 or tag != "gen"):
+            cases.append(dict(kind="sweep", fmt=fmt, file=b64(data), bmin=bmin, bmax=len(data) + 1, rd="bytes", withq=True, shift=33, feat=True, _f=fi))
+    # a transport that FAILS (I/O error, not end of file) after k bytes: the reader must die (log.Fatal), never end cleanly;
+    # what it delivered before is compared with the model (chunker_e)
+    for fi, (fmt, data, recs, tag) in enumerate(files):
+        if (fi % 3 == 1 or tag not in ("gen", "layout")) and len(data) <= 450:
+            for k in {rng.randrange(0, len(data) + 1), rng.choice([0, len(data), len(data) - 1, max(0, len(data) - 2)])}:
+                cases.append(dict(kind="sweep", fmt=fmt, file=b64(data), bmin=bmin, bmax=len(data) + 1, rd=rng.choice(["ioerr", "ioerr", "ioerr-half"]), failat=k, withq=True, shift=33, _f=fi))
     T = {}
     t0 = time.time()
     obs = ctx.vh_robust("c01", [{k: v for k, v in c.items() if not k.startswith("_")} for c in cases], timeout=600, one_timeout=60)
     T["sweeps_s"] = round(time.time() - t0, 1); t0 = time.time()
 
     nchunkings, nviol, dist = 0, 0, {}
-    sweep_terms, parse_texts, split_bufs = [], {}, {}
+    sweep_terms, parse_texts, split_bufs, glue_terms, glue_origin = [], {}, {}, [], []
     for ci, (c, o) in enumerate(zip(cases, obs)):
         fmt, data, recs, tag = files[c["_f"]]
-        exp = None if recs is None else [dict(r, qual=(r["qual"] if c["withq"] else None)) for r in recs]
+        exp = None if recs is None else [dict(r, qual=([(q + 33 - c["shift"]) % 256 for q in r["qual"]] if c["withq"] and r["qual"] is not None else None)) for r in recs]
 
         def viol(what, detail, B=None):
             nonlocal nviol
@@ -684,10 +852,35 @@ def run(ctx, broken):
         whole = None if o["fatal"] else [obs_rec(r) for r in o["recs"] or []]
         if exp is not None and whole != exp:
             viol("whole_file_records", dict(implementation=whole))
+        if c.get("feat") and exp is not None and not o["fatal"]:
+            gotf = [unb64(r.get("feat")).decode("latin1") for r in o["recs"] or []]
+            if gotf != expected_features(fmt, data):
+                viol("feature_tables", dict(implementation=gotf, expected=expected_features(fmt, data)))
+        if c["rd"].startswith("ioerr"):
+            per_b = []
+            for s in o["sizes"]:
+                nchunkings += 1
+                key = "%s/%s/%s" % (fmt, c["rd"], s["st"])
+                dist[key] = dist.get(key, 0) + 1
+                if s["st"] != "fatal":
+                    viol("io_error_not_reported_" + s["st"], dict(s, transport_fails_after=c["failat"], expected="log.Fatal (exit status 1)"), s["b"])
+                    continue
+                msg = prefix_partition(data, c["failat"], s["chunks"])
+                if msg:
+                    viol("partition_before_io_error", dict(msg=msg, chunks=s["chunks"]), s["b"])
+                per_b.append((s["b"], s["chunks"]))
+            if len(data) > 150:
+                keepb = {rng.randrange(1, len(data) + 2) for _ in range(6 if ctx.quick else 40)} | {c["failat"], c["failat"] + 1, max(1, c["failat"] - 1)}
+                per_b = [x for x in per_b if x[0] in keepb]
+            if len(data) <= 700:
+                glue_terms.append("GIoErr %d%%nat %s %d%%nat ([%s])%%nat" % (FMT[fmt], bytes_coq(data), c["failat"], "; ".join(
+                    "(%d, [%s])" % (b, "; ".join("(%d,%d,%d)" % tuple(t) for t in ch)) for b, ch in per_b)))
+                glue_origin.append(("ioerr", ci))
+            continue
         per_b = []
         for s in o["sizes"]:
             nchunkings += 1
-            key = "%s/%s/%s" % (fmt, c["rd"], s["st"])
+            key = "%s/%s/%s" % (fmt, c["rd"] + ("+feat" if c.get("feat") else "") + ("+shift64" if c["shift"] == 64 else ""), s["st"])
             dist[key] = dist.get(key, 0) + 1
             if s["st"] != "ok":
                 viol("chunks_" + s["st"], s, s["b"])
@@ -699,9 +892,10 @@ def run(ctx, broken):
                 got = None if s["fatal"] else [obs_rec(r) for r in s.get("recs") or []]
                 viol("records_depend_on_buffer_size", dict(implementation=got, whole_file=whole), s["b"])
             per_b.append((s["b"], s["chunks"]))
-            for (od, st, ln) in s["chunks"]:
-                parse_texts.setdefault((fmt, c["withq"], data[st:st + ln]), None)
-        if c["rd"] == "bytes" and c["withq"]:
+            if not c.get("feat"):
+                for (od, st, ln) in s["chunks"]:
+                    parse_texts.setdefault((fmt, c["withq"], c["shift"], data[st:st + ln]), None)
+        if c["rd"] == "bytes" and c["withq"] and c["shift"] == 33 and not c.get("feat"):
             if len(data) > 150:      # the model evaluates every buffer size on small files, a sample on larger ones (cost ~ |file|^2 log |file|)
                 nb = (4 if len(data) > 600 else 12) if ctx.quick else 60
                 keep = (set(range(3, 9)) if len(data) <= 600 else {4, 7}) | {rng.randrange(9, len(data) + 2) for _ in range(nb)} | {len(data) - 1, len(data), len(data) + 1}
@@ -720,16 +914,18 @@ def run(ctx, broken):
         if fmt in ("fasta", "fastq"):
             for _ in range(2):
                 a = rng.randrange(0, len(data))
-                ptexts.append((fmt, True, data[a:rng.randrange(a + 1, len(data) + 1)]))
+                ptexts.append((fmt, True, 33, data[a:rng.randrange(a + 1, len(data) + 1)]))
     # chunks of fewer than two bytes (FastaChunkParser reads start[0], start[1] of Peek(20) unchecked: panic = fatal), blank-only texts
     for t in (b"", b">", b">\n", b">a", b"\n", b">a\n", b">a\nA", b"@", b"@a\nA\n+\nI"):
-        ptexts.append(("fastq" if t[:1] == b"@" else "fasta", True, t))
+        ptexts.append(("fastq" if t[:1] == b"@" else "fasta", True, 33, t))
     for f in ("genbank", "embl"):
         for t in (b"", b"\n\n", b"\r\n\r\r\n", b"//", b"//\n", b"\r"):
-            ptexts.append((f, True, t))
-    pcases = [dict(kind="parse", fmt=f, file=b64(t), withq=wq, shift=33) for (f, wq, t) in ptexts]
+            ptexts.append((f, True, 33, t))
+    for f, t in MALFORMED:
+        ptexts.append((f, True, rng.choice([33, 64]) if f == "fastq" else 33, t))
+    pcases = [dict(kind="parse", fmt=f, file=b64(t), withq=wq, shift=sh) for (f, wq, sh, t) in ptexts]
     pobs = ctx.vh_robust("c01", pcases, timeout=300, one_timeout=20)
-    sbufs = list(split_bufs.keys())
+    sbufs = list(split_bufs.keys()) + [x for x in SPLITBUFS if x not in split_bufs]
     scases = [dict(kind="split", fmt=f, file=b64(t)) for (f, t) in sbufs]
     sobs = ctx.vh_robust("c01", scases, timeout=300, one_timeout=20)
 
@@ -754,11 +950,11 @@ def run(ctx, broken):
     nrf = len(terms)
     for ci, t in sweep_terms:
         terms.append(t); origin.append(("sweep", ci))
-    for k, ((f, wq, t), o) in enumerate(zip(ptexts, pobs)):
+    for k, ((f, wq, sh, t), o) in enumerate(zip(ptexts, pobs)):
         if o.get("kind") == "crash":
             continue
         rl = None if o["fatal"] else [obs_rec(r) for r in o["recs"] or []]
-        terms.append("CParse %d%%nat 33%%N %s %s %s" % (FMT[f], "true" if wq else "false", bytes_coq(t), recs_term(rl, o["fatal"])))
+        terms.append("CParse %d%%nat %d%%N %s %s %s" % (FMT[f], sh, "true" if wq else "false", bytes_coq(t), recs_term(rl, o["fatal"])))
         origin.append(("parse", k))
     for k, ((f, t), o) in enumerate(zip(sbufs, sobs)):
         if o.get("kind") == "crash":
@@ -782,6 +978,88 @@ def run(ctx, broken):
                            first_diverging_case=dict(kind="printer", fmt=files[fi][0], file_text=files[fi][1].decode("latin1"), records=files[fi][2], term=layout_terms[pbad[0]][1][:3000])))
     ctx.cov["printer_image_cases"] = len(layout_terms)
     T["correspondence_s"] = round(time.time() - t0, 1); t0 = time.time()
+
+    import re
+    # 3b. (round 3) the peek-and-rebuild reader of OBIMimeTypeGuesser: every size of its buffer (hook VerifMimeGuessBufferSize;
+    # 1 MiB in production) over several reader kinds, incl. a failing transport: the rebuilt reader delivers the bytes of the input
+    gcases = []
+    for fi, (fmt, data, recs, tag) in enumerate(files):
+        if recs is None or not (fi % 4 == 2 or tag not in ("gen", "layout")):
+            continue
+        gs = sorted({1, 2, len(data) - 1, len(data), len(data) + 1} | {rng.randrange(1, len(data) + 2) for _ in range(4)})
+        for g in [g for g in gs if g >= 1]:
+            k = rng.random()
+            rd = "bytes" if k < 0.4 else rng.choice(["onebyte", "half", "pipe", "dataerr"]) if k < 0.7 else rng.choice(["ioerr", "ioerr-half"])
+            gcases.append(dict(kind="guess", fmt=fmt, file=b64(data), rd=rd, g=g, failat=rng.choice([rng.randrange(0, len(data) + 1), g, g - 1, len(data)]) if rd.startswith("ioerr") else 0, _f=fi))
+        gcases.append(dict(kind="guess", fmt=fmt, file=b64(data), rd=rng.choice(["bytes", "half", "pipe"]), g=0, failat=0, _f=fi))       # production size: the type guessed is judged
+    gobs = ctx.vh_robust("c01", [{k: v for k, v in c.items() if not k.startswith("_")} for c in gcases], timeout=300, one_timeout=30)
+    for gi, (c, o) in enumerate(zip(gcases, gobs)):
+        fmt, data, recs, tag = files[c["_f"]]
+        dist["guess/%s" % c["rd"]] = dist.get("guess/%s" % c["rd"], 0) + 1
+        io = c["rd"].startswith("ioerr")
+        gmsg = None
+        if o.get("kind") == "crash":
+            gmsg = "crash"
+        elif not io:
+            if o.get("fatal") or o.get("err") or not o.get("same") or o.get("nread") != len(data):
+                gmsg = "the rebuilt reader does not deliver the bytes of the input"
+            elif c["g"] == 0 and o.get("mime") != MIME[fmt] and not (fmt == "fastq" and re.search(rb"\r(?!\n)", data)):     # (FASTQ is recognised through LF-ended lines)
+                gmsg = "format guessed: %s" % o.get("mime")
+        else:       # failing transport: the error is returned at once, or the reader delivers the bytes read so far and then the error
+            if not o.get("fatal") and not (o.get("err") and o.get("nread") == c["failat"]):
+                gmsg = "I/O error of the transport swallowed"
+        if gmsg:
+            nviol += 1
+            if nviol <= 6:
+                ctx.violation("c01_guess_%d" % gi, dict(property="C01", kind="direct-oracle", what="OBIMimeTypeGuesser: " + gmsg, case={k: v for k, v in c.items() if not k.startswith("_")},
+                                                        file_text=data.decode("latin1")[:2000], implementation=o, expected="the bytes of the input (%d), type %s" % (len(data), MIME[fmt])))
+        if o.get("kind") != "crash" and c["g"] > 0 and len(data) <= 700:
+            glue_terms.append("GGuess %d%%nat %s %s %s" % (c["g"], bytes_coq(data), "(Some %d%%nat)" % c["failat"] if io else "None",
+                                                           "None" if o.get("fatal") else "(Some (%d%%nat, %s))" % (o.get("nread", 0), "true" if o.get("same") else "false")))
+            glue_origin.append(("guess", gi))
+    # 3c. xopen.Buf over plain and compressed data, with and without a byte-order mark, down to the smallest inputs (the magic
+    # numbers of the compressors are looked for in the first 2 / 4 / 6 bytes): the bytes delivered are the data without ONE mark
+    bcases = []
+    smalls = [b"", BOM, BOM + BOM, BOM + b"\n", b"\xef\xbb", b"\xef", b">", b">a", b">a\n", BOM + b">", BOM + b">a\nc", b"\xef\xbb\xbe>a\nc\n", b"\xff\xfe>a\nc\n", b"\x1f", b"\x1f\x8b", b"BZ", b"\x28\xb5\x2f", b"\xfd7zX"]
+    for d in smalls:
+        for codec in ["raw", rng.choice(CODECS[1:])]:
+            bcases.append(dict(kind="buf", file=b64(compress(codec, d)), rd=rng.choice(["bytes", "onebyte", "half", "pipe"]), _d=d, _codec=codec))
+    for fi, (fmt, data, recs, tag) in enumerate(files):
+        if fi % 4 == 3 or tag not in ("gen", "layout"):
+            d = (BOM if rng.random() < 0.6 else b"") + data
+            codec = rng.choice(CODECS)
+            bcases.append(dict(kind="buf", file=b64(compress(codec, d)), rd=rng.choice(["bytes", "onebyte", "half", "pipe", "dataerr"]), _d=d, _codec=codec))
+    bobs = ctx.vh_robust("c01", [{k: v for k, v in c.items() if not k.startswith("_")} for c in bcases], timeout=300, one_timeout=30)
+    for bi, (c, o) in enumerate(zip(bcases, bobs)):
+        d = c["_d"]
+        dist["buf/%s%s" % (c["_codec"], "+bom" if d[:3] == BOM else "")] = dist.get("buf/%s%s" % (c["_codec"], "+bom" if d[:3] == BOM else ""), 0) + 1
+        want = d[3:] if d[:3] == BOM else d
+        # (raw data that begin with the magic number of a compressor are not text: observation only)
+        magic = c["_codec"] == "raw" and any(d.startswith(m) for m in (b"\x1f\x8b", b"BZh", b"\x28\xb5\x2f\xfd", b"\xfd7zXZ\x00"))
+        if magic:
+            continue
+        got = None if o.get("err") == "nocontent" else (unb64(o.get("back")) if o.get("kind") == "buf" and not o.get("fatal") else "error")
+        if got != (want or None):
+            nviol += 1
+            if nviol <= 6:
+                ctx.violation("c01_buf_%d" % bi, dict(property="C01", kind="direct-oracle", what="xopen.Buf over %s data%s" % (c["_codec"], " beginning with a byte-order mark" if d[:3] == BOM else ""),
+                                                      case={k: v for k, v in c.items() if not k.startswith("_")}, file_text=d.decode("latin1")[:2000], implementation=dict(o, back=None if not o.get("back") else unb64(o["back"]).decode("latin1")[:2000]),
+                                                      expected="no content" if not want else want.decode("latin1")[:2000]))
+        if o.get("kind") == "buf" and not o.get("fatal") and len(d) <= 700:
+            glue_terms.append("GBuf %s %s" % (bytes_coq(d), "None" if o.get("err") == "nocontent" else "(Some %s)" % bytes_coq(unb64(o.get("back")))))
+            glue_origin.append(("buf", bi))
+    gbad, gerr = ctx.correspond("glue", IMPORTS + "From OBI.C01 Require Import GlueModel.\n", glue_terms, fn="glue_mismatches", shard=12)
+    ctx.cov["glue_model_evaluations"] = len(glue_terms)
+    if gbad is None:
+        broken.append(dict(kind="correspondence", detail=gerr))
+    elif gbad and not ctx.violations:
+        kind, k = glue_origin[gbad[0]]
+        cc, oo = (cases[k], obs[k]) if kind == "ioerr" else (gcases[k], gobs[k]) if kind == "guess" else (bcases[k], bobs[k])
+        if kind == "ioerr":
+            oo = dict(oo, sizes=[x for x in oo["sizes"]][:12], recs=None)
+        broken.append(dict(kind="correspondence", name="corr:C01/glue-%s" % kind, n_diverging=len(gbad),
+                           first_diverging_case=dict(kind=kind, case={a: b for a, b in cc.items() if not a.startswith("_")}, implementation=oo, term=glue_terms[gbad[0]][:1500])))
+    T["guess+glue_s"] = round(time.time() - t0, 1); t0 = time.time()
     ctx.cov["phase_s"] = T
     if bad is None:
         broken.append(dict(kind="correspondence", detail=err))
@@ -850,20 +1128,50 @@ def run(ctx, broken):
         if fmt in ("genbank", "embl") and recs is not None and tag != "big" and len(recs) >= 2:
             end1 = data.find(b"\n//") + 3
             end1 = data.find(b"\n", end1) + 1            # offset of the byte that follows the first "//" line
-            for flatb in {rng.choice([2, 16, 100, 300]), end1 + rng.choice([-1, 0, 1])}:     # ... a buffer that ends exactly there
+            sizes = {rng.choice([2, 16, 100, 300]), end1 + rng.choice([-1, 0, 1])}     # ... a buffer that ends exactly there
+            if tag.startswith("equal-size"):       # every read ends exactly after a "//" line: the tail carried over is empty each time
+                sizes |= {end1, 2 * end1}
+            for flatb in sizes:
                 rcases.append(dict(kind="read", fmt=fmt, file=b64(data), rd="bytes", withq=True, shift=33, workers=rng.choice([2, 3, 8]), flatb=flatb, full=rng.random() < 0.6, _f=fi))
     # the two files larger than 1 MiB again, delivered as ONE batch (OptionsFullFileBatch)
     for c in [c for c in rcases if files[c["_f"]][3] == "big" and c["fmt"] in ("fasta", "fastq")]:
         rcases.append(dict(c, full=True))
+    # (round 3) without the title-line annotation parser (the reader returns the sorted iterator itself); a transport failing
+    # after k bytes under the public readers: the run must die, whatever was delivered before
+    for fi, (fmt, data, recs, tag) in enumerate(files):
+        if recs is not None and tag != "big" and (fi % 5 == 1 or tag not in ("gen", "layout")):
+            if fmt in ("fasta", "fastq"):
+                rcases.append(dict(kind="read", fmt=fmt, file=b64(data), rd="bytes", withq=True, shift=33, workers=rng.choice([1, 2, 4]), nohdr=True, full=rng.random() < 0.3, _f=fi))
+            if fmt == "fastq":      # quality offset 64 (obioptions.SetInputQualityShift: --solexa)
+                rcases.append(dict(kind="read", fmt=fmt, file=b64(data), rd=rng.choice(["bytes", "pipe"]), withq=True, shift=64, workers=rng.choice([1, 2, 4]), _f=fi))
+            rcases.append(dict(kind="read", fmt=fmt, file=b64(data), rd=rng.choice(["ioerr", "ioerr-half"]), failat=rng.choice([rng.randrange(0, len(data) + 1), len(data)]), withq=True, shift=33,
+                               workers=rng.choice([1, 2, 4]), flatb=rng.choice([0, 64, 300]) if fmt in ("genbank", "embl") else 0, full=rng.random() < 0.3, _f=fi))
     for c in rcases:       # a reader that does not finish (deadlock) is a violation; generous deadlines (the machine may be heavily loaded)
         c["time_ms"] = 40000 if files[c["_f"]][3] == "big" else 20000
     t0 = time.time()
-    robs = ctx.vh_robust("c01", [{k: v for k, v in c.items() if not k.startswith("_")} for c in rcases], timeout=900, one_timeout=90)
+    # (the cases expected to die run in a process of their own: a goroutine left behind by one of them may call log.Fatal later)
+    rcases.sort(key=lambda c: c["rd"].startswith("ioerr"))
+    nplain = sum(1 for c in rcases if not c["rd"].startswith("ioerr"))
+    robs = ctx.vh_robust("c01", [{k: v for k, v in c.items() if not k.startswith("_")} for c in rcases[:nplain]], timeout=900, one_timeout=90)
+    robs += ctx.vh_robust("c01", [{k: v for k, v in c.items() if not k.startswith("_")} for c in rcases[nplain:]], timeout=300, one_timeout=60)
     T["readers_s"] = round(time.time() - t0, 1); t0 = time.time()
     for ci, (c, o) in enumerate(zip(rcases, robs)):
         fmt, data, recs, tag = files[c["_f"]]
         got = None if (o.get("kind") == "crash" or o.get("fatal")) else [obs_rec(r) for r in o.get("recs") or []]
         dist["read/%s" % fmt] = dist.get("read/%s" % fmt, 0) + 1
+        if c["rd"].startswith("ioerr"):
+            dist["read_failing_transport/%s" % fmt] = dist.get("read_failing_transport/%s" % fmt, 0) + 1
+            # dying = log.Fatal, or a run-time panic of a parser worker on the truncated last chunk (the process ends with a traceback)
+            died = o.get("err") == "log.Fatal" or (o.get("kind") == "crash" and ("goroutine" in (o.get("err") or "") or "panic" in (o.get("err") or "")))
+            if died and o.get("kind") == "crash":
+                dist["read_failing_transport/panic"] = dist.get("read_failing_transport/panic", 0) + 1
+            if not died:
+                nviol += 1
+                if nviol <= 6:
+                    ctx.violation("c01_read_%d" % ci, dict(property="C01", kind="direct-oracle", what="public reader over a transport that fails after %d bytes: the error is not reported (log.Fatal expected)" % c["failat"],
+                                                           case={k: v for k, v in c.items() if not k.startswith("_")}, file_text=data.decode("latin1")[:2000], implementation=dict(o, recs=None, arrived=None),
+                                                           n_implementation=None if got is None else len(got), expected="log.Fatal: Error reading data from file"))
+            continue
         orders = o.get("orders") or []
         if len(orders) >= 2:
             dist["read_multi_batch/%s" % fmt] = dist.get("read_multi_batch/%s" % fmt, 0) + 1
@@ -873,7 +1181,7 @@ def run(ctx, broken):
             o["err"] = "full-file batch mode delivered %d batches" % len(orders)
         if got is not None:
             got = [dict(r, d=r["d"].rstrip()) for r in got]       # the public readers also run the header parser, which trims the definition
-        if o.get("err") or got != [dict(r, d=r["d"].rstrip()) for r in recs]:
+        if o.get("err") or got != [dict(r, d=r["d"].rstrip(), qual=r["qual"] if r["qual"] is None else [(q + 33 - c["shift"]) % 256 for q in r["qual"]]) for r in recs]:
             nviol += 1
             if nviol <= 6:
                 big = tag == "big"
@@ -882,20 +1190,122 @@ def run(ctx, broken):
                                                        implementation=[r["id"] for r in (got or [])[:12]] if big else got,
                                                        n_implementation=None if got is None else len(got), expected_records=[r["id"] for r in recs[:12]] if big else recs, n_expected=len(recs)))
 
+    # 4b. (round 3) the entry points the commands call: Read{Sequences,Fasta,Fastq,Genbank,EMBL}FromFile / ...FromStdin (and the
+    # kseq reader ReadFastSeqFromFile, which no command calls) on files written under the name a user would give them: plain,
+    # gzip, bzip2, xz, zstd; with a byte-order mark; empty; missing; larger than the guessing buffer (lowered through the hook)
+    import re
+    fcases2 = []
+
+    def need_guess(fmt, data):
+        if fmt == "fastq":
+            m = re.match(rb"^@[^ ].*\n[^ ]+\n\+", data)
+            return len(m.group(0)) if m else len(data)
+        return dict(fasta=2, genbank=12, embl=5)[fmt]
+    for fi, (fmt, data, recs, tag) in enumerate(files):
+        if recs is None or tag in ("big", "blank-only"):
+            continue
+        sniffable = tag != "layout" and not (b"\r" in data and fmt in ("fasta", "fastq") and re.search(rb"\r(?!\n)", data))
+        for rep_ in range(2 if (tag != "gen" or fi % 2 == 0) else 1):
+            api = rng.choice(["seqs", "seqs", fmt]) if sniffable else fmt
+            stdin = api in ("seqs", "fasta", "fastq") and rng.random() < 0.35
+            bom = rng.random() < 0.15
+            g = 0
+            if api == "seqs" and rng.random() < 0.5:
+                g = need_guess(fmt, data) + (3 if bom else 0) + rng.choice([0, 1, 7, 40, len(data)])
+            codec = rng.choice(CODECS)
+            fcases2.append(dict(kind="fromfile", name="f%d%s%s" % (fi, EXT[fmt], "" if codec == "raw" else "." + codec), file=b64(compress(codec, (BOM if bom else b"") + data)), api=api, stdin=stdin, g=g,
+                                workers=rng.choice([1, 2, 4]), withq=True, full=rng.random() < 0.25, nohdr=rng.random() < 0.25, time_ms=20000, _f=fi, _exp="recs", _codec=codec, _bom=bom))
+        if fmt in ("fasta", "fastq") and fi % 3 == 0 and not re.search(rb"\r(?!\n)", data):      # (kseq dies on lines ended by a lone CR)
+            codec = rng.choice(["raw", "gz"])
+            fcases2.append(dict(kind="fromfile", name="k%d%s%s" % (fi, EXT[fmt], "" if codec == "raw" else ".gz"), file=b64(compress(codec, data)), api="fastseq", workers=1, withq=True, nohdr=rng.random() < 0.6, batch=rng.choice([0, 1, 2, 3]),
+                                full=rng.random() < 0.3, time_ms=20000, _f=fi, _exp="kseq", _codec=codec, _bom=False))
+    for fmt in FMT:      # no data at all (plain and compressed), a file that does not exist
+        for codec in ("raw", rng.choice(CODECS[1:])):
+            for api, stdin in [("seqs", False), (fmt, False)] + ([("seqs", True), (fmt, True)] if fmt in ("fasta", "fastq") else []):
+                fcases2.append(dict(kind="fromfile", name="e%s%s" % (EXT[fmt], "" if codec == "raw" else "." + codec), file=b64(compress(codec, b"")), api=api, stdin=stdin, workers=2, withq=True,
+                                    time_ms=20000, _f=None, _exp="empty", _codec=codec, _bom=False))
+        for api in ["seqs", fmt] + (["fastseq"] if fmt == "fasta" else []):
+            fcases2.append(dict(kind="fromfile", name="", file="", api=api, workers=2, withq=True, time_ms=20000, _f=None, _exp="missing", _codec="raw", _bom=False))
+        # nothing but a byte-order mark (an empty text file saved by an editor that writes one): no record, as for the empty file
+        codec = rng.choice(CODECS)
+        for api, stdin in [("seqs", False), (fmt, False)] + ([("seqs", True)] if fmt in ("fasta", "fastq") else []):
+            fcases2.append(dict(kind="fromfile", name="m%s%s" % (EXT[fmt], "" if codec == "raw" else "." + codec), file=b64(compress(codec, BOM)), api=api, stdin=stdin, workers=2, withq=True,
+                                time_ms=20000, _f=None, _exp="empty", _codec=codec, _bom=True))
+    for fi, (fmt, data, recs, tag) in enumerate(files):      # the files larger than the production buffers, through the guesser
+        if tag == "big" and fmt in ("fasta", "fastq") and len(recs) > 1000 and len(data) > 2 * MIB:
+            codec = rng.choice(CODECS)
+            fcases2.append(dict(kind="fromfile", name="big%d%s%s" % (fi, EXT[fmt], "" if codec == "raw" else "." + codec), file=b64(compress(codec, data)), api="seqs", stdin=rng.random() < 0.5, workers=4, withq=True,
+                                time_ms=40000, _f=fi, _exp="recs", _codec=codec, _bom=False))
+    t0 = time.time()
+    fobs2 = ctx.vh_robust("c01", [{k: v for k, v in c.items() if not k.startswith("_")} for c in fcases2], timeout=900, one_timeout=90)
+    T["fromfile_s"] = round(time.time() - t0, 1); t0 = time.time()
+    for ci, (c, o) in enumerate(zip(fcases2, fobs2)):
+        key = "fromfile/%s%s/%s%s%s" % (c["api"], "-stdin" if c.get("stdin") else "", c["_codec"], "+bom" if c["_bom"] else "", "/" + c["_exp"] if c["_exp"] != "recs" else "")
+        dist[key] = dist.get(key, 0) + 1
+        if c.get("g"):
+            dist["fromfile/small-guess-buffer"] = dist.get("fromfile/small-guess-buffer", 0) + 1
+        fmt, data, recs, tag = files[c["_f"]] if c["_f"] is not None else (None, b"", [], "")
+        got = None if (o.get("kind") == "crash" or o.get("fatal")) else [obs_rec(r) for r in o.get("recs") or []]
+        orders = o.get("orders") or []
+        if c["_exp"] == "missing":
+            ok, expd = got is None and o.get("kind") != "crash" and o.get("err") != "timeout", "an error (the file does not exist)"
+        elif c["_exp"] == "kseq":     # the third-party reader keeps the blanks around the definition
+            norm = lambda rs: [dict(r, d=r["d"].strip(" \t\r")) for r in rs]
+            ok, expd = got is not None and not o.get("err") and norm(got) == norm(recs), norm(recs)
+        else:
+            norm = lambda rs: [dict(r, d=r["d"].rstrip()) for r in rs]
+            ok, expd = got is not None and not o.get("err") and norm(got) == norm(recs), norm(recs)
+            if ok and c.get("full") and len(orders) != (1 if recs else 0):
+                ok, o["err"] = False, "full-file batch mode delivered %d batches" % len(orders)
+        if not ok:
+            nviol += 1
+            if nviol <= 6:
+                big = tag == "big"
+                ctx.violation("c01_fromfile_%d" % ci, dict(property="C01", kind="direct-oracle", what="entry point %s%s on %s" % (c["api"], " (standard input)" if c.get("stdin") else "", c["name"] or "a missing file"),
+                                                           case={k: v for k, v in c.items() if not k.startswith("_")}, file_text=data.decode("latin1")[:600 if big else 2000], codec=c["_codec"], byte_order_mark=c["_bom"],
+                                                           err=o.get("err"), batch_numbers_in_arrival_order=orders[:40], implementation=[r["id"] for r in (got or [])[:12]] if big else got,
+                                                           n_implementation=None if got is None else len(got), expected_records=[r["id"] for r in expd[:12]] if big and isinstance(expd, list) else expd))
+
     # 5. the built obiconvert binary: regular file, stdin, gzip file, gzip on stdin (default workers; output must be in file order)
     tfiles = [f for i, f in enumerate(files) if f[2] is not None and f[3] != "big" and (f[3] != "gen" or i % (5 if ctx.quick else 2) == 0)]
     # (files written from printer layouts have unusual but valid header lines: the CLI's format sniffing is not exercised on them)
-    tfiles = [f for f in tfiles if f[3] not in ("blank-only", "layout")]
-    ntrans = run_transports(ctx, tfiles, broken)
+    # (... and the writer refuses the empty sequence of a CONTIG record)
+    tfiles = [f for f in tfiles if f[3] not in ("blank-only", "layout", "contig")]
+    # no data at all: no record, exit status 0
+    for fmt in ("fasta", "fastq", rng.choice(["genbank", "embl"])):
+        flag = ["--" + fmt] if fmt in ("genbank", "embl") else []
+        tfiles.append((fmt, b"", [], "empty", [("file", ["F"], None), ("stdin", flag, "raw")] + ([("flag-file", ["--" + fmt, "F"], None)] if rng.random() < 0.5 else [])))
+    tfiles.append((rng.choice(["fasta", "fastq"]), BOM, [], "empty", [("file", ["F"], None), ("stdin", [], rng.choice(CODECS))]))     # nothing but a byte-order mark
+    # a byte-order mark in front of the data (plain and compressed)
+    for f in [f for f in tfiles if f[3] == "simple"]:
+        codec = rng.choice(CODECS)
+        tfiles.append((f[0], BOM + f[1], f[2], "bom", [("file", ["F"], None), ("stdin", [], codec), (codec + "-file", ["F." + codec] if codec != "raw" else ["--" + f[0], "F"], None)]))
+    # one file larger than every buffer of the path (1 MiB guessing buffer, 1 MiB read buffer): the guessed bytes are followed
+    # by the rest of the stream
+    bigs = [f for f in files if f[3] == "big" and f[0] in ("fasta", "fastq") and len(f[2]) > 1000 and len(f[1]) > 2 * MIB]
+    if bigs:
+        f = rng.choice(bigs)
+        codec = rng.choice(CODECS[1:])
+        tfiles.append((f[0], f[1], f[2], "big", [("file", ["F"], None), ("stdin", [], rng.choice(["raw", codec])), (codec + "-file", ["--max-cpu", rng.choice(["1", "3"]), "F." + codec], None)]))
+    ntrans = run_transports(ctx, tfiles, broken, rng)
     T["transports_s"] = round(time.time() - t0, 1)
     dist["obiconvert_runs"] = ntrans
     dist["readfull_cases"] = len(fcases)
-    ctx.cov["evaluations"] = nchunkings + len(pcases) + len(scases) + len(rcases) + ntrans + len(fcases)
+    ctx.cov["evaluations"] = nchunkings + len(pcases) + len(scases) + len(rcases) + ntrans + len(fcases) + len(fcases2) + len(gcases) + len(bcases)
     ctx.cov["distinct_nontrivial"] = sum(1 for c, o in zip(cases, obs) if o.get("kind") != "crash" for s in o["sizes"] if len(s["chunks"]) >= 2)
     ctx.cov["rule"] = ("one evaluation = one (file, reader kind, buffer size) chunking + parse of every chunk, or one parser / splitter / public-reader call; "
                        "non-trivial = the chunking produced at least two chunks (a cut really fell inside the file); every buffer size %d..|file|+1 is swept" % bmin)
-    ctx.cov["distribution"] = dict(files={f: sum(1 for x in files if x[0] == f) for f in FMT}, file_len_max=max(len(f[1]) for f in files if f[3] != "big"), big_file_bytes=[len(f[1]) for f in files if f[3] == "big"],
-                                   chunkings=dist, parser_cases=len(pcases), splitter_cases=len(scases), reader_cases=len(rcases))
+    import re as _re
+    classes = {}
+    for f in files:
+        ks = [f[3]]
+        if f[0] in ("fasta", "fastq") and f[3] == "gen":
+            ks += [k for k, hit in (("gen:lone-cr", _re.search(rb"\r(?!\n)", f[1])), ("gen:crlf", b"\r\n" in f[1]), ("gen:blank-in-sequence", f[0] == "fasta" and _re.search(rb"\n[^>\n]*[acgtnryACGTNRY.\[\]-][ \t]", f[1])),
+                                   ("gen:title-with->@+", _re.search(rb"[ \t][>@+]", f[1])), ("gen:no-final-eol", f[1][-1:] not in (b"\n", b"\r"))) if hit]
+        for k in ks:
+            classes[k] = classes.get(k, 0) + 1
+    ctx.cov["distribution"] = dict(input_classes=classes, files={f: sum(1 for x in files if x[0] == f) for f in FMT}, file_len_max=max(len(f[1]) for f in files if f[3] != "big"), big_file_bytes=[len(f[1]) for f in files if f[3] == "big"],
+                                   chunkings=dist, parser_cases=len(pcases), splitter_cases=len(scases), reader_cases=len(rcases), entry_point_cases=len(fcases2), guesser_cases=len(gcases))
     small = [f for f in files if f[3] != "big"]
     ctx.samples = [dict(fmt=f[0], file=f[1].decode("latin1"), records=f[2]) for f in small[:2] + small[-2:]]
 
@@ -906,8 +1316,9 @@ def replay(ctx, rp):
         data = unb64(c["file"])
         exp = [dict(id=e[0], d=e[1], seq=e[2], qual=None if e[3] is None else [ord(ch) - 33 for ch in e[3]], taxid=e[4], sci=e[5]) for e in rp["expected_records"]]
         nviol = len(ctx.violations)
-        run_transports(ctx, [(c["fmt"], data, exp, "replay")], [])
-        print("replay: obiconvert over file / stdin / gzip on", repr(rp.get("file_text"))[:300])
+        plan = [tuple(x) for x in c.get("plan") or []]
+        run_transports(ctx, [(c["fmt"], data, exp, "replay") + ((plan,) if plan else ())], [])
+        print("replay:", rp.get("what"), "on", repr(rp.get("file_text"))[:300])
         print(" ->", "records differ from the expected ones (see the new replay file)" if len(ctx.violations) > nviol else "all transports deliver the expected records")
         return
     obs = ctx.vh_robust("c01", [c], timeout=60, one_timeout=60)
@@ -922,6 +1333,19 @@ def replay(ctx, rp):
               "; %d records, fatal=%s err=%s" % (len(o.get("recs") or []), o.get("fatal"), o.get("err")))
         print(" first identifiers delivered:", [obs_rec(r)["id"] for r in (o.get("arrived") or o.get("recs") or [])[:12]])
         print(" expected:", rp.get("expected_records"))
+        return
+    if o.get("kind") == "buf":
+        print(" xopen.Buf over reader kind %s -> %s" % (c.get("rd"), "no content" if o.get("err") == "nocontent" else o.get("err") or repr(unb64(o.get("back")))[:400]))
+        print(" expected:", repr(rp.get("expected"))[:400])
+        return
+    if o.get("kind") in ("fromfile", "guess"):
+        if o["kind"] == "fromfile":
+            print(" entry point %s%s on the file %r (%d bytes as stored: %s)" % (c.get("api"), " over standard input" if c.get("stdin") else "", c.get("name") or "<missing>", len(unb64(c.get("file", ""))), rp.get("codec")))
+            print(" -> fatal=%s err=%s batches=%s records=%s" % (o.get("fatal"), o.get("err"), o.get("orders"), [obs_rec(r) for r in (o.get("recs") or [])[:12]]))
+        else:
+            print(" OBIMimeTypeGuesser, buffer %s, reader kind %s%s -> type %s, %s bytes read back, identical=%s, fatal=%s err=%s" % (
+                c.get("g") or "1 MiB", c.get("rd"), " failing after %d bytes" % c["failat"] if str(c.get("rd")).startswith("ioerr") else "", o.get("mime"), o.get("nread"), o.get("same"), o.get("fatal"), o.get("err")))
+        print(" expected:", rp.get("expected_records") if "expected_records" in rp else rp.get("expected"))
         return
     if o.get("kind") == "sweep":
         for s in o["sizes"]:
